@@ -895,9 +895,11 @@ fn analyze_partial_pattern(
         value_type_id,
     )?;
 
-    // Check if the original value type could be multiple types (for adding type checks)
+    // Check if the original value type could be multiple types (for adding type checks). A union
+    // needs the check even when only one of its variants is a tuple or partial: the value could be
+    // one of the non-tuple members (an int, a function, ...), which must not pass the pattern.
     let value_type_sources = extract_field_sources(program, value_type_id);
-    let needs_type_check = value_type_sources.len() > 1;
+    let needs_type_check = value_type_sources.len() > 1 || is_union(value_type_id, program);
 
     // Narrowed type accumulated per matchable variant, reconstructed with field-level precision so
     // a later branch's complement reflects the field check (e.g. `mode: R | A` after `=(mode: W)`).
